@@ -86,6 +86,7 @@ func cancelScenario(name string, d *shapeDesc, kinds []int, deadline, before, as
 		}
 		h = newH(root)
 		h.menu = menu
+		h.topDown = rotationOf(name)%2 == 1 // half of the scenarios wire nested flows top-down
 		cs = &cancelState{at: -1}
 		if deadline {
 			c, _ := core.WithDeadline(context.Background(), core.Now().Add(24*time.Hour))
